@@ -207,6 +207,7 @@ type c15Case struct {
 	Incidence int      `json:"incidence"` // key i carries label j iff bit (3*i+j) is set
 	Args      []string `json:"args"`
 	FailAt    int      `json:"fail_at"`
+	Desc      bool     `json:"desc,omitempty"` // map ranges iterate in descending key order
 }
 
 // c15One runs one case. It returns (kind, detail, number of Delete calls the fault-free run makes).
@@ -414,7 +415,9 @@ func c15Seq(cc c15Cell, env *Env) CellResult {
 	if env.Replay != nil {
 		var cs c15Case
 		_ = json.Unmarshal(env.Replay.Extra, &cs)
+		vsched.MapOrderDesc = cs.Desc
 		run(cs)
+		vsched.MapOrderDesc = false
 
 		return res
 	}
@@ -426,15 +429,17 @@ func c15Seq(cc c15Cell, env *Env) CellResult {
 		}
 
 		for _, a := range args {
-			n := run(c15Case{Incidence: inc, Args: a, FailAt: -1})
+			// Go leaves map iteration order unspecified; the instrumented build owns it, both directions are run
+			for _, desc := range []bool{false, true} {
+				vsched.MapOrderDesc = desc
+				n := run(c15Case{Incidence: inc, Args: a, FailAt: -1, Desc: desc})
 
-			if cc.Names > 1 {
-				continue // the order in which names are visited is not owned; no fault positions there
+				for j := 0; j < n; j++ {
+					run(c15Case{Incidence: inc, Args: a, FailAt: j, Desc: desc})
+				}
 			}
 
-			for j := 0; j < n; j++ {
-				run(c15Case{Incidence: inc, Args: a, FailAt: j})
-			}
+			vsched.MapOrderDesc = false
 		}
 	}
 
@@ -678,7 +683,7 @@ func init() {
 			"x deleters {ShardedMap, SyncMap, ShardedMapOf, ShardedMap+SyncMap, two ShardedMaps} x a Delete failure injected at EVERY call position of the fault-free run (plus none), followed by a retry with the fault cleared; " +
 			"(conc) 2-3 threads of AddLabels / AddCache / InvalidateByLabels on a shared index, all schedules within the bound, then a final sweep: every key labelled before or during the run must be removable, counts must add up",
 		Assumptions: []string{
-			"with two cache names the order in which names are visited (Go map order) is not owned; fault positions are enumerated with one name only",
+			"Go map iteration order (cache names, labels in the put-back loop) is owned by the instrumented build; every case runs with ascending and with descending order",
 			"the runtime's concurrent-map-access detector cannot fire under a cooperative scheduler; unsynchronised access to the index is C16's subject (race detector)",
 		},
 	})
